@@ -61,6 +61,8 @@ def stiffness_letters(seed):
         ("steel_like", np.array([1.0e4, 4.0e3, 4.2e3]), np.array([2.0, 1.5, 1.1])),
         # integer-dtype stiffness arrays, as the library's own cantilever script passes them (np.array([5, 1, 1]))
         ("int_dtype", np.array([5, 1, 1]), np.array([2, 3, 4])),
+        # thin wire in SI units (radius 0.1 mm steel): axial / shear stiffnesses 1e8..1e9 times the bending / torsion ones
+        ("thin_wire", np.array([6.6e3, 2.5e3, 2.5e3]), np.array([1.2e-5, 1.6e-5, 1.6e-5])),
     ]
 
 
